@@ -39,6 +39,20 @@ func guard(f func()) (pv interface{}) {
 	return nil
 }
 
+// otherSizeK: a type of another size; every third choice is a zero-size type (struct{} / [0]int64), which occupies no
+// register or stack slot at all
+func otherSizeK(t reflect.Type, k int) reflect.Type {
+	if t.Size() != 0 {
+		switch k % 6 {
+		case 0:
+			return reflect.TypeOf(struct{}{})
+		case 3:
+			return reflect.TypeOf([0]int64{})
+		}
+	}
+	return otherSize(t)
+}
+
 func otherSize(t reflect.Type) reflect.Type {
 	if t.Size() == 8 {
 		return reflect.TypeOf(int32(0))
@@ -166,7 +180,10 @@ func runMistake(ci interface{}, s *vkit.Stats) error {
 		}
 		in := ins(ft)
 		k := c.Pos % len(in)
-		in[k] = otherSize(in[k])
+		in[k] = otherSizeK(in[k], c.K)
+		if in[k].Size() == 0 {
+			s.Class("zero-size-type-in-the-callback")
+		}
 		do = func() { b.Func(fn.Fn).Apply(mkFunc(in, outs(ft), false)) }
 	case "cb-result-size":
 		if ft.NumOut() == 0 {
@@ -175,7 +192,10 @@ func runMistake(ci interface{}, s *vkit.Stats) error {
 		}
 		out := outs(ft)
 		k := c.Pos % len(out)
-		out[k] = otherSize(out[k])
+		out[k] = otherSizeK(out[k], c.K)
+		if out[k].Size() == 0 {
+			s.Class("zero-size-type-in-the-callback")
+		}
 		do = func() { b.Func(fn.Fn).Apply(mkFunc(ins(ft), out, ft.IsVariadic())) }
 	case "when-too-few":
 		if ft.NumIn() < 2 || ft.IsVariadic() {
